@@ -9,9 +9,9 @@ from checks import srcposfam
 
 
 def block_positions(tier):
-    """Props/BlocksPos.v: the per-node position invariant of the block phase (1 <= start line / column, start and end
-    line <= the line counter for the `free_val` values, start <= end line for thematic breaks / fenced code / multiline
-    block quotes) proved through every step of Model/Blocks.v; the model is tied to the compiled parser here, positions
+    """Props/BlocksPos.v: the position invariants of the block phase (1 <= start line / column; start and end line <= the
+    line counter for every value but FrontMatter; start-line nesting parent <= child with description lists off; start <=
+    end line for thematic breaks / fenced code / multiline block quotes) proved through every step of Model/Blocks.v; the model is tied to the compiled parser here, positions
     included (blocks_tie compares the dumped trees string for string)."""
     def f(c):
         c.phase_proofs("BlocksPos")
@@ -26,7 +26,7 @@ def block_positions(tier):
 def main(tier):
     c = srcposfam.run("C11", ("B", "N", "S"), tier, after_proofs=block_positions(tier))
     c.cov["partial_clauses"] = [
-        "block phase (Props/BlocksPos.v): 1 <= start line / column proved for every node, input and option set; start / end line <= line counter for the `free_val` values only (every value but FrontMatter with the table extension off; not Paragraph / setext Heading / table kinds / DescriptionList / DescriptionItem with it on; nothing with table and description lists both on); start line <= end line only for ThematicBreak, fenced CodeBlock, MultilineBlockQuote and only with description lists off; full statements BlocksPos_lines_full_statement, BlocksPos_start_le_end_full_statement are not proved; refuted with witnesses: HtmlBlock start after end (C11-h), empty Document 1:1-0:0 (C11-a), FrontMatter end line beyond the line counter",
+        "block phase (Props/BlocksPos.v), proved for every input, node and option set: 1 <= start line / column; start line <= line counter for every node and end line <= line counter for every value but FrontMatter (BlocksPos_lines = BlocksPos_lines_full_statement, BlocksPos_start_line; refuted for FrontMatter: its end is set from the stripped front matter); every Paragraph keeps at most one line_offsets entry per line (BlocksPos_line_offsets); proved with the description list extension off: every node starts at or before each of its children (BlocksPos_start_nest), refuted with it on below a DescriptionTerm (C11-l), not proved elsewhere with it on (BlocksPos_start_nest_full_statement); start line <= end line only for ThematicBreak, fenced CodeBlock, MultilineBlockQuote and only with description lists off (BlocksPos_start_le_end_full_statement is not proved; refuted for HtmlBlock, C11-h, and the empty Document, C11-a); end-line nesting and column upper bounds of blocks are not proved (searched: between reliable kinds the end-line nesting fails only in the known classes C11-i and C11-d)",
         "the global statement (forall inputs: in bounds and nested) is not proved; it is evaluated with the extracted predicates and FAILS in the known classes listed in known_findings.json (C11-a ...)",
         "nesting and sibling order are demanded only between reliable kinds (Spec/SourcePos.v `reliable`, quoted from the documentation)"]
     c.assumptions = ["Model/Spx.v is a hand transcription; the Rust bodies are compared with the transcribed text on every run (translator item srcpos)",
